@@ -6,6 +6,7 @@ import core
 import m1lib
 import molfacts
 import molgen
+from props import c01_cov
 
 # the 24 proper signed permutation matrices act exactly on grid coordinates
 def _signed_perms():
@@ -34,6 +35,16 @@ def moved_case(c, M, t):
         a['pos'] = tuple(sum(int(M[i, j]) * p[j] for j in range(3)) + Fr(t[i]) for i in range(3))
     d.name = c.name + ' moved'
     return d
+
+
+def _pose_run(m2, cid, o):
+    """Observation of the moved conformer; an exception raised only in the moved pose is an observation too (it differs from the
+    original's), not a crash of the check."""
+    try:
+        f1, obs1, k1 = molfacts.impl_run(m2, cid, o)
+        return (k1, m1lib.all_level_ids(f1), m1lib.fp_multiset(f1, None, 1024))
+    except Exception as e:  # noqa
+        return (-1, {-1: ['raised %s: %s' % (type(e).__name__, str(e)[:200])]}, ())
 
 
 def run(ctx):
@@ -85,11 +96,10 @@ def run(ctx):
             if m1lib.is_unstable(m2, cid, o):
                 stats['skipped_unstable'] += 1
                 continue
-            f1, obs1, k1 = molfacts.impl_run(m2, cid, o)
             stats['motions'] += 1
             stats['reflections'] += 0 if proper else 1
             ctx.count(('motion', name, cid, str(o), j), k0 >= 1)
-            got = (k1, m1lib.all_level_ids(f1), m1lib.fp_multiset(f1, None, 1024))
+            got = _pose_run(m2, cid, o)
             if got != base:
                 found = True
                 from rdkit import Chem
@@ -135,10 +145,9 @@ def run(ctx):
             for M in Ms:
                 t = np.array([rng.randrange(-64, 64) / 16.0 for _ in range(3)]) if rng.random() < 0.5 else np.zeros(3)
                 m2 = m1lib.transformed(m, cid, M.astype(float), t)
-                f1, obs1, k1 = molfacts.impl_run(m2, cid, o)
                 estats['exact_motions'] += 1
                 ctx.count(('exact-motion', name, cid, str(o), str(M.tolist()), str(t.tolist())), k0 >= 1)
-                got = (k1, m1lib.all_level_ids(f1), m1lib.fp_multiset(f1, None, 1024))
+                got = _pose_run(m2, cid, o)
                 if got != base:
                     found = True
                     ctx.fail('fingerprint changed under an EXACT axis-permutation motion (%s)' % ('proper' if round(np.linalg.det(M)) == 1 else 'improper, stereo off'),
@@ -148,14 +157,22 @@ def run(ctx):
                     break
     ctx.coverage['input_distribution']['exact_axis_motions'] = estats
     ctx.coverage['input_distribution']['metamorphic'] = stats
+    # coverage extension (props/c01_cov.py): exactly right-angled / collinear / planar / lattice geometries, wide option values, motion
+    # classes, call patterns, every get_fingerprint_at_level query, single shells against Model/Stereo.v, array_ops helpers
+    found |= c01_cov.run_all(ctx)
     ctx.coverage['rule'] = ('tie: gridded (molecule, conformer, options) cases, half of them also with the model input moved by an exact signed-permutation '
                             'rotation (reflection when stereo is off) and a grid translation, the implementation observation being that of the unmoved input; '
                             'search: implementation re-run under random rotations+translations (reflections when stereo off) comparing every level\'s identifier '
-                            'multiset, current_level and a folded fingerprint; non-trivial: reaches level >= 1')
+                            'multiset, current_level and a folded fingerprint; non-trivial: reaches level >= 1.  Extension (c01_cov.py): the same tie on '
+                            'exactly right-angled / collinear / planar / lattice geometries and on option values outside the menu; stereo codes of single '
+                            'synthetic shells against Model/Stereo.v `codes` and under random motions; 15 motion classes x 7 call patterns x bit/count '
+                            'fingerprinters with every level queried (folded, unfolded, masked); exact motions of exactly tied geometries; equivariance '
+                            'of the array_ops helpers')
     ctx.assumptions += ['floating point: the theorem is about exact arithmetic; inputs within 2^-30 of a decision threshold are tagged (harness/m1_spec.py) and skipped, as the property\'s quantifier excludes them']
     if not ok:
         core.report_broken_proof(ctx, res, found)
 
 
 def replay(ctx, path):
-    return m1lib.replay_case(ctx, path)
+    r = c01_cov.replay(ctx, path)
+    return m1lib.replay_case(ctx, path) if r is None else r
